@@ -1715,6 +1715,12 @@ class PSBTOut:
                 except ValueError:
                     raise ValueError(f"pubkey is not in WitnessScript {self}")
         elif self.redeem_script:
+            if not script_pubkey.is_p2sh():
+                raise ValueError("RedeemScript included in non-p2sh output")
+            if self.redeem_script.hash160() != script_pubkey.commands[1]:
+                raise ValueError(
+                    "RedeemScript hash160 and ScriptPubKey hash160 do not match"
+                )
             for sec in self.named_pubs.keys():
                 try:
                     # this will raise a ValueError if it's not in there
